@@ -3,7 +3,8 @@ import ERP.Total
 /-! # The axis arithmetic and the radius-form arc centre of the model *are* the source's
 
 `ERP/Gen/Arith.lean` is regenerated on every run from the statements of
-`AxisPosition.logicalToNative`, `.nativeToLogical`, `.setLogicalOffsetPosition`, `.setHomeOffset` and
+`AxisPosition.logicalToNative`, `.nativeToLogical`, `.setLogicalOffsetPosition`, `.setHomeOffset`,
+`ExcludeRegionState._exitCoordinate` and
 `GcodeHandlers.computeArcCenterOffsets`, and of `GcodeHandlers.planArc` (everything before its loop, and
 the loop body) (assignments, augmented assignments, `if`/`else`, early
 `return`, conditional expressions, `and`/`or`/`^`, comparisons, `+ - * /`, `abs`, `math.sqrt`,
@@ -43,6 +44,14 @@ theorem gen_setHomeOffset (a : Axis α) (v : α) :
     T.setHomeOffset a v = { a with
       homeOffset := (Gen.setHomeOffset (T.cur a) a.homeOffset a.offset a.unitMultiplier a.absoluteMode v).1,
       current := some (Gen.setHomeOffset (T.cur a) a.homeOffset a.offset a.unitMultiplier a.absoluteMode v).2 } := rfl
+
+/-- `_exitCoordinate(axis, lastAxis)`: the coordinate of the re-positioning moves -/
+theorem gen_exitCoord (axis lastAxis : Axis α) :
+    T.exitCoord axis lastAxis =
+      Gen.exitCoordinate (T.cur axis) axis.homeOffset axis.offset axis.unitMultiplier axis.absoluteMode
+        (T.cur lastAxis) := by
+  unfold T.exitCoord Gen.exitCoordinate
+  cases axis.absoluteMode <;> rfl
 
 /-- `computeArcCenterOffsets(endX, endY, radius, clockwise)` -/
 theorem gen_arcCenterOffsets (p : Position α) (endX endY radius : α) (cw : Bool) :
